@@ -55,6 +55,8 @@ SAMPLES = ['uamiv', 'lateral_boundary', 'humidity', 'vertical_diffusivity',
 BROKEN = [('trunc_humidity', 10), ('trunc_uamiv', 40), ('trunc_bpch', 30),
           ('trunc_netcdf', 6), ('empty_vertical_diffusivity', 0),
           ('trunc_ffi1001', 20), ('trunc_lateral_boundary', 500)]
+REWRITE_KINDS = ['uamiv', 'humidity', 'vertical_diffusivity', 'ffi1001',
+                 'lateral_boundary', 'nc1', 'nc2', 'io', 'trunc_uamiv']
 AMBIGUOUS = {'humidity', 'vertical_diffusivity', 'bpch', 'nc1', 'nc2', 'io'}
 _POOL = {}
 
@@ -126,13 +128,18 @@ def digest(f):
                 dims=dims, vars=vs)
 
 
-def probe(path, **kw):
+def probe(path, aspath=False, **kw):
     """open, digest, close (R8b).  Returns ('ok', digest) or ('raise', type)"""
     from PseudoNetCDF import pncopen
     cwd = os.getcwd()
     os.chdir(os.path.dirname(path))   # bpch readers look for the tables
     try:
-        exc, f = attempt(pncopen, path, **kw)
+        if aspath:
+            import pathlib
+            arg = pathlib.Path(path)
+        else:
+            arg = path
+        exc, f = attempt(pncopen, arg, **kw)
         if exc is not None:
             return ['raise', type(exc).__name__]
         try:
@@ -204,12 +211,20 @@ def cases(draw, tier='quick'):
     # bias: suffix opens early, neutral ambiguous probes later
     hist = []
     for i in range(n):
-        if draw(st.integers(0, 2)) == 0:
-            hist.append(draw(st.sampled_from(
+        c = draw(st.integers(0, 8))
+        if c <= 2:
+            h = draw(st.sampled_from(
                 ['n:humidity', 'n:vertical_diffusivity', 'n:io', 'n:nc1',
-                 'n:bpch', 'n:nc2'])))
+                 'n:bpch', 'n:nc2']))
+        elif c == 3:
+            # the scratch path work.dat is REWRITTEN with the content of
+            # another pool file and probed: same path, different file
+            h = 'w=' + draw(st.sampled_from(REWRITE_KINDS))
         else:
-            hist.append(draw(st.sampled_from(POOLKEYS)))
+            h = draw(st.sampled_from(POOLKEYS))
+        if draw(st.integers(0, 4)) == 0:
+            h += '|P'       # hand the path over as pathlib.Path, not str
+        hist.append(h)
     io = dict(nr=draw(st.integers(1, 3)), nc=draw(st.integers(1, 3)),
               nt=draw(st.integers(1, 3)), sdate=draw(st.sampled_from(
                   [2001001, 1999365, 2020060])))
@@ -286,20 +301,39 @@ def check_case(case):
         n0 = libstate.registry_len()
         seen_suffix = set()
         nt = False
-        for i, key in enumerate(case['history']):
-            e = pool[key]
+        workpath = os.path.join(cdir, 'work.dat')
+        touched = []
+        for i, step in enumerate(case['history']):
+            aspath = step.endswith('|P')
+            key = step[:-2] if aspath else step
+            if key.startswith('w='):
+                # rewrite the scratch path with another file's content; the
+                # expected result is that content's neutral-name reference
+                src = pool['n:' + key[2:]]
+                shutil.copy(src['path'], workpath)
+                e = dict(src, path=workpath, suffix=False)
+                r.label('rewritten-path')
+                nt = True
+            else:
+                e = pool[key]
+                touched.append(key)
+            if aspath:
+                r.label('pathlike-argument')
             if not e['suffix'] and e['kind'] in AMBIGUOUS and seen_suffix:
                 nt = True
-            got = probe(e['path'])
+            got = probe(e['path'], aspath=aspath)
             d = compare(e['ref'], got)
             if d is not None:
-                prior = sorted(set(pool[k]['kind'] for k in
-                                   case['history'][:i] if pool[k]['suffix']))
-                r.fail('history-' + d[0], 'step %d: probing %s (%s name) '
-                       'after opening suffix-named %r: %s' % (
+                prior = [x for x in case['history'][:i]]
+                r.fail('history-' + d[0], 'step %d: probing %s (%s name%s%s)'
+                       ' after history %r: %s' % (
                            i, e['kind'], 'suffix' if e['suffix'] else
-                           'neutral', prior, d[1]),
-                       klass=e['kind'] + ('/sfx' if e['suffix'] else '/neu'))
+                           'neutral', ', pathlib.Path' if aspath else '',
+                           ', rewritten path' if key.startswith('w=') else '',
+                           prior[-6:], d[1]),
+                       klass=e['kind'] + ('/sfx' if e['suffix'] else '/neu') +
+                       ('/P' if aspath else '') +
+                       ('/rewritten' if key.startswith('w=') else ''))
                 break
             if e['suffix']:
                 seen_suffix.add(e['kind'])
@@ -311,7 +345,7 @@ def check_case(case):
             r.label('suffix-then-neutral-ambiguous')
         # clause 2: auto vs explicit, on a clean registry, for every file
         # the history touched
-        for key in sorted(set(case['history'])):
+        for key in sorted(set(touched)):
             e = pool[key]
             if e['fmt'] is None:
                 r.label('broken-file-open')
